@@ -146,6 +146,7 @@ type srtRender struct {
 	tagMode   int // 0 closed per run, 1 nested stack kept across runs and closed at end of cue, 2 same but left open at end of cue
 	escAll    bool
 	hours1    bool
+	idxMix    uint64
 }
 
 func (o srtRender) String() string {
@@ -153,9 +154,17 @@ func (o srtRender) String() string {
 		o.eol, o.bom, o.indexKind, o.between, o.atEOF, o.sep, o.minDigits, o.arrow, o.coords, o.upper, o.quote, o.tagMode, o.escAll, o.hours1)
 }
 
+// indexKindOf gives the index kind of cue k: 0 numeric, 1 absent, 2 garbage (indexKind 3 = mixed per cue)
+func (o srtRender) indexKindOf(k int) int {
+	if o.indexKind != 3 {
+		return o.indexKind
+	}
+	return int(fw.Mix(o.idxMix, uint64(k)) % 3)
+}
+
 func srtGenRender(r *fw.Rand) srtRender {
 	return srtRender{
-		eol: fw.Pick(r, []string{"\n", "\r\n", "\r"}), bom: r.P(1, 3), indexKind: fw.Pick(r, []int{0, 0, 1, 2}),
+		eol: fw.Pick(r, []string{"\n", "\r\n", "\r"}), bom: r.P(1, 3), indexKind: fw.Pick(r, []int{0, 3, 3, 1, 2}), idxMix: r.U64(),
 		between: r.Range(1, 3), atEOF: r.Range(-1, 3), sep: fw.Pick(r, []string{",", "."}), minDigits: r.P(1, 3),
 		arrow: r.Intn(5), coords: r.P(1, 5), upper: r.P(1, 4), quote: r.Intn(3), tagMode: r.Intn(3), escAll: r.Bool(), hours1: r.P(1, 4),
 	}
@@ -266,7 +275,7 @@ func srtRenderDoc(cs []srtCue, o srtRender, r *fw.Rand) []byte {
 	order := []string{"b", "i", "u", "font"}
 	fw.Shuffle(r, order)
 	for k, c := range cs {
-		switch o.indexKind {
+		switch o.indexKindOf(k) {
 		case 0:
 			b.WriteString(strconv.Itoa(c.Index) + o.eol)
 		case 2:
@@ -512,8 +521,17 @@ func c01Reader(c *fw.Ctx) fw.Outcome {
 		if err != nil {
 			return fw.Bad(key, string(doc), "reader rejected a well-formed document (rendering {%s}): %v\n%q", o, err, trunc(string(doc), 600))
 		}
-		withIndex := o.indexKind == 0
-		exp, have := srtDenote(model, withIndex), srtDenote(srtProject(got), withIndex)
+		// the cue number is compared where the rendering carries a decimal one
+		expM, gotM := append([]srtCue(nil), model...), srtProject(got)
+		for k := range expM {
+			if o.indexKindOf(k) != 0 {
+				expM[k].Index = 0
+				if k < len(gotM) {
+					gotM[k].Index = 0
+				}
+			}
+		}
+		exp, have := srtDenote(expM, true), srtDenote(gotM, true)
 		if exp != have {
 			return fw.Bad(key, string(doc), "SRT reader, rendering {%s}: %s\ndocument: %q", o, firstDiff(exp, have), trunc(string(doc), 900))
 		}
